@@ -154,9 +154,11 @@ def run_case(case):
                 closer = fth.Thread(target=close_later, name=f"closer{ri}")
                 closer.start()
             rk = {}
-            if ping:
+            if r.get("ping") is not None:
+                rk = {"ping_interval": r["ping"][0], "ping_timeout": r["ping"][1]}  # this run's own keepalive settings
+            elif ping:
                 rk = {"ping_interval": ping[0], "ping_timeout": ping[1]}
-            if end["kind"] == "ping-timeout" and not ping:
+            if end["kind"] == "ping-timeout" and not ping and r.get("ping") is None:
                 rk = {"ping_interval": 5, "ping_timeout": 2}
             if r.get("lost_first"):
                 rk["reconnect"] = 0.5
@@ -357,6 +359,29 @@ def stream_cases():
                                        {"traffic": [], "ending": {"kind": "server-close", "code": 1000, "reason": b"", "gap": 0.5}}])
 
 
+def rerun_cases():
+    """A run that ended in a ping/pong timeout, then the same object run again with other keepalive settings (none, or a timeout only)."""
+    for T in (1, 2):
+        for ping2 in ([0, 3], [0, 1], None, [6, 2]):
+            for gap in (0.5, 8.0):
+                second = {"traffic": [[gap, [{"op": 1, "p": b"hello"}]], [4.0, [{"op": 1, "p": b"again"}]]], "ending": {"kind": "server-close", "code": 1000, "reason": b"", "gap": 4.5}}
+                if ping2 is not None:
+                    second["ping"] = ping2
+                yield {"runs": [{"traffic": [], "ending": {"kind": "ping-timeout", "gap": 1.0}, "ping": [2.5 * T, T]}, second]}
+
+
+def close_code_cases(shard, of):
+    """The server ends the run with each close code that may appear on the wire, with and without a reason: on_close gets exactly that."""
+    codes = [c for c in range(1000, 1016) if c not in (1004, 1005, 1006, 1015)] + list(range(3000, 5000))
+    for i, code in enumerate(codes):
+        if i % of != shard:
+            continue
+        for reason in (b"", b"r"):
+            if code >= 3000 and reason and code % 7:
+                continue  # (with a reason: a sample of the private range)
+            yield {"runs": [{"traffic": [], "ending": {"kind": "server-close", "code": code, "reason": reason, "gap": 0.5}}], "secure": bool(code & 1)}
+
+
 def _count_steps(case):
     holder = {}
     orig = simkit.Sched.__init__
@@ -377,6 +402,7 @@ def jobs(tier, seed):
     n, shards = (2400, 8) if tier == "quick" else (144000, 16)
     out = [{"name": f"hyp-{i}", "kind": "hyp", "seed": seed * 1000 + i, "n": n // shards} for i in range(shards)]
     out.append({"name": "stream-after-close", "kind": "stream"})
+    out += [{"name": f"close-codes-{k}", "kind": "codes", "shard": k, "of": 4} for k in range(4)]
     of = 4 if tier == "quick" else 16
     for fi in range(len(FIXED)):
         for sh in range(of):
@@ -387,8 +413,14 @@ def jobs(tier, seed):
 def run_job(job, coll):
     if job["kind"] == "hyp":
         hyp_run(coll, cases(), run_case, job["seed"], job["n"])
+    elif job["kind"] == "codes":
+        for c in close_code_cases(job["shard"], job["of"]):
+            coll.check(c, run_case)
+        coll.exhaustive["every close status that may appear on the wire (1000-1003, 1007-1014, 3000-4999) as the server's ending"] = True
     elif job["kind"] == "stream":
         for c in stream_cases():
+            coll.check(c, run_case)
+        for c in rerun_cases():
             coll.check(c, run_case)
     else:
         base = FIXED[job["fixed"]]
